@@ -9,6 +9,8 @@ From CG Require Import Model.Check.
 From CG Require Import Model.Dfa.
 From CG Require Import Spec.Choice.
 From CGgen Require Import Consts.
+From CG Require Import Model.Minimize.
+From CG Require Import Spec.DfaEquiv.
 (* add new Require lines above this line *)
 Require Import ExtrOcamlBasic ExtrOcamlString.
 Extraction Language OCaml.
@@ -23,5 +25,12 @@ Separate Extraction
   Dfa.mkall
   Dfa.trans_states
   Choice.spec
+  Minimize.minimize
+  Minimize.do_minimize
+  DfaEquiv.validate
+  DfaEquiv.equiv_dec
+  DfaEquiv.trim_dec
+  DfaEquiv.distinct_dec
+  DfaEquiv.states
   (* add new roots above this line *)
   Prelude.pow2.
